@@ -33,6 +33,12 @@ clause → theorem
   - growing: the price activates with fewer than N' samples of the new configuration    → `stale_window_early_activation_counterexample`
   - a delete loop keyed by an id that is no asset id deletes nothing                    → `delete_by_script_keeps_windows`,
                                                                                            `chain_stale_counterexample`
+* last clause, per consumer: the readers that test the activity flag hand out a value only for an active price, and
+  nothing at all right after a (re)configuration                                        → `strict_readers_fail_closed`,
+                                                                                           `readers_refuse_after_reconfigure`
+  three reward-weighting readers answer with the last average of an INACTIVE price (finding D35)
+                                                                                         → `stale_tolerant_readers_counterexample`,
+                                                                                           `stale_tolerant_readers_answer_iff`
 -/
 namespace Comdex.C17
 open Comdex Comdex.Twa Comdex.Feed
@@ -262,6 +268,42 @@ theorem chain_stale_counterexample :
       some (⟨5, 60⟩, [(1, { values := [60, 70, 80], idx := 3, twa := 0, active := false, discarded := -1 })]) ∧
     finalBooks (chainRunStale 1 {} demoHistory) = finalBooks (chainRun {} demoHistory) := by
   decide +kernel
+
+
+/-! ### Consumers (last clause: "consumers asking for the value of an asset with an inactive price get an error") -/
+
+/-- **The readers that test the activity flag fail closed**: `market.CalcAssetPrice` (through which vault, lend,
+liquidation and auction value assets), `GetLatestPrice`, the vault ratio, `rewards.OraclePrice` hand out a value only
+for an active price — for ANY stored window (reachable or not: also a stale or genesis-imported one). -/
+theorem strict_readers_fail_closed (r : Reader) (s : Option Rec) (listed : Bool) (hs : r.strict = true)
+    (h : r.answers s listed = true) : (abs s).active = true := by
+  cases s with
+  | none => simp [Reader.answers] at h
+  | some w =>
+    cases r <;> simp [Reader.strict] at hs <;> simp [Reader.answers] at h <;> simp [abs, h]
+
+/-- after a (re)configuration every reader refuses every asset until its window has been refilled: nothing is stored -/
+theorem readers_refuse_after_reconfigure (c : Chain) (cfg : Cfg) (h : Int) (r : Reader) (id : Nat) (listed : Bool) :
+    ∃ c', chainStep c (.configure cfg h) = .ok c' ∧ r.answers (c'.bk.get id) listed = false := by
+  obtain ⟨c', hc, _, _, hget, _⟩ := reconfigure_restarts_every_window c cfg h
+  exact ⟨c', hc, by rw [hget id]; rfl⟩
+
+/-- **Finding D35**: the three reward-weighting readers do NOT fail closed. Window size 1: a sample of 5 activates the
+price, a zero sample deactivates it — the stored average stays 5 — and `liquidity.CalcAssetPrice`, `liquidity.OraclePrice`,
+`rewards.OraclePriceForRewards` still answer, while every flag-testing reader refuses. -/
+theorem stale_tolerant_readers_counterexample :
+    run 1 60 none [.sample 5 20, .sample 0 40] = .ok (some { values := [5], idx := 0, twa := 5, active := false, discarded := 40 }) ∧
+    (∀ r : Reader, r.answers (some { values := [5], idx := 0, twa := 5, active := false, discarded := 40 }) true = !r.strict) :=
+  ⟨rfl, by intro r; cases r <;> rfl⟩
+
+/-- exactly when they answer: a stored window with a non-zero last average (or an active one) -/
+theorem stale_tolerant_readers_answer_iff (w : Rec) :
+    (Reader.liqCalc.answers (some w) true = true ↔ w.twa > 0) ∧
+    (Reader.liqOracle.answers (some w) true = true ↔ (w.active = true ∨ w.twa > 0)) ∧
+    (Reader.rewardsPrice.answers (some w) true = true ↔ (w.active = true ∨ w.twa > 0)) := by
+  simp [Reader.answers]
+
+example : Reader.calc.strict = true ∧ Reader.calc.answers (some { values := [5], idx := 0, twa := 5, active := true, discarded := -1 }) true = true := by decide
 
 /-! ### Non-vacuity -/
 -- a history with two reconfigurations; the last segment is the two samples after the second one
